@@ -22,6 +22,11 @@ def gen_line(rng):
         return b'+ ' + rng.choice(WORDS + KW)
     if k < 0.45:
         return rng.choice(MARKERS)
+    if k < 0.52:
+        # two outcome keywords of different classes on one line: [selected] is a disjunction,
+        # each disjunct must be decided on its own
+        a, b = rng.sample([b'SKIPPED', b'DISABLED', b'FAILED', b'EXPECTED_FAIL', b'UNEXPECTED_PASS'], 2)
+        return rng.choice([b'', b'2 tests: 1 ']) + a + rng.choice([b', 1 ', b' ', b' earlier, now ']) + b
     if k < 0.70:
         pre = rng.choice([b'', b'test ', b'x', b'\t'])
         post = rng.choice([b'', b' (reason)', b'!', b'\x00 tail'])
